@@ -201,6 +201,8 @@ def session(p1: str, p2: str, op: int) -> bool:
         cover("done")
     if not (_valid(wd) and _valid(srv.workingDirectory)):
         return False
+    if op != 0 and srv.workingDirectory != wd:      # only CWD moves the working directory
+        return False
     for p in log:
         if not (isinstance(p, str) and _contained(p, False)):
             return False
